@@ -56,12 +56,13 @@ Qed.
    whenever valve states are respected *)
 Lemma row_in_spec a n t r :
   row_in a n t r = true <->
+  b_pi r = false /\
   (f_respect (flags_of (a_flags a) t) = false \/ b_act r = true) /\
   ~ (t = "pipe" /\ a_rs_valves a = true /\ In (b_label r) (closed_pi_pipes n)).
 Proof.
-  unfold row_in. rewrite andb_true_iff, orb_true_iff, negb_true_iff, negb_true_iff. split.
-  - intros [H1 H2]. split; auto. intros [-> [Hv Hc]]. apply memz_In in Hc. rewrite Hv, Hc in H2. discriminate.
-  - intros [H1 H2]. split; auto.
+  unfold row_in. rewrite !andb_true_iff, orb_true_iff, !negb_true_iff. split.
+  - intros [[H0 H1] H2]. repeat split; auto. intros [-> [Hv Hc]]. apply memz_In in Hc. rewrite Hv, Hc in H2. discriminate.
+  - intros [H0 [H1 H2]]. repeat split; auto.
     destruct (String.eqb t "pipe") eqn:E; auto. destruct (a_rs_valves a) eqn:V; auto.
     destruct (memz (b_label r) (closed_pi_pipes n)) eqn:M; auto.
     exfalso. apply H2. apply String.eqb_eq in E. apply memz_In in M. auto.
@@ -82,7 +83,7 @@ Lemma pipe_valve_closes a n p vr u v w :
 Proof.
   intros Hv Hr Hpi Hact Hto Hin. apply edge_in_graph_iff in Hin.
   destruct Hin as [rows [r [_ [_ [_ [Hrow [_ [_ [Hl _]]]]]]]]]. apply row_in_spec in Hrow.
-  destruct Hrow as [_ Hn]. apply Hn. repeat split; auto. rewrite <- Hl. apply closed_pi_In. eauto.
+  destruct Hrow as [_ [_ Hn]]. apply Hn. repeat split; auto. rewrite <- Hl. apply closed_pi_In. eauto.
 Qed.
 
 (* one edge per branch: keys (table, label) are unique when tables and labels are *)
@@ -265,14 +266,22 @@ Proof.
   unfold reach in *. rewrite (closure_is_reachability _ _ _ x Hs). tauto.
 Qed.
 
-(* without pi valves and with intact references every edge joins two junctions *)
+(* a pi valve adds no edge of its own: every edge comes from a row that is not a pipe-attached valve, and joins two
+   junctions when the references of those rows are intact *)
+Lemma edge_row_not_pi a n u v t l w : In (mkE u v t l w) (edges a n) ->
+  exists rows r, In (t, rows) (n_tables n) /\ In r rows /\ b_label r = l /\ b_pi r = false /\ u = b_from r /\ v = b_to r.
+Proof.
+  intros He. apply edge_in_graph_iff in He.
+  destruct He as [rows [r [Ht [Hr [_ [Hrow [-> [-> [-> _]]]]]]]]]. apply row_in_spec in Hrow. destruct Hrow as [Hpi _].
+  exists rows, r. repeat split; auto.
+Qed.
+
 Lemma edges_join_junctions a n :
-  (forall tb r, In tb (n_tables n) -> In r (snd tb) ->
-     b_pi r = false /\ In (b_from r) (map j_label (n_junctions n)) /\ In (b_to r) (map j_label (n_junctions n))) ->
+  (forall tb r, In tb (n_tables n) -> In r (snd tb) -> b_pi r = false ->
+     In (b_from r) (map j_label (n_junctions n)) /\ In (b_to r) (map j_label (n_junctions n))) ->
   forall e, In e (edges a n) ->
     In (e_u e) (map j_label (n_junctions n)) /\ In (e_v e) (map j_label (n_junctions n)).
 Proof.
-  intros H [u v t l w] He. apply edge_in_graph_iff in He.
-  destruct He as [rows [r [Ht [Hr [_ [_ [-> [-> _]]]]]]]]. simpl.
-  destruct (H (t, rows) r Ht Hr) as [_ [A B]]. auto.
+  intros H [u v t l w] He. apply edge_row_not_pi in He.
+  destruct He as [rows [r [Ht [Hr [_ [Hpi [-> ->]]]]]]]. simpl. exact (H (t, rows) r Ht Hr Hpi).
 Qed.
